@@ -354,66 +354,3 @@ Proof.
   split; [unfold nowrap, MAXT; vm_compute; discriminate|]. split; [vm_compute; tauto|]. split; [vm_compute; tauto|reflexivity].
 Qed.
 
-(* ---------------------------------------------------------------- C/E: timers that were never re-armed *)
-Record NR (tk : Z) (s : state) : Prop := mkNR {
-  nr_uniq : forall i j, (i < ntasks s)%nat -> (j < ntasks s)%nat -> owner (tasks s i) = tk -> owner (tasks s j) = tk -> i = j;
-  nr_handle : forall i, (i < ntasks s)%nat -> owner (tasks s i) = tk -> status (tasks s i) = Pend false -> handle s tk = Some i;
-  nr_nofire : forall i, (i < ntasks s)%nat -> owner (tasks s i) = tk -> (exists c, status (tasks s i) = Pend c) ->
-              forall o, In o (log s) -> fires_for tk o = false;
-  nr_deadline : forall i, (i < ntasks s)%nat -> owner (tasks s i) = tk ->
-              exists t0 tau, In (OSent tk t0 tau) (log s) /\ tau <> 0 /\ deadline (tasks s i) = t0 + Z.max tau 0
-}.
-
-Definition noresched (tk : Z) (e : event) : bool := negb (resched_on tk e).
-
-Lemma NR_init : forall tk, NR tk init.
-Proof. intros. constructor; cbn; intros; lia. Qed.
-
-Lemma fires_bounded : forall s tk o, Inv s -> In o (log s) -> fires_for tk o = true -> tk <= gen s.
-Proof. intros s tk o HI Hin Hf. apply (i_log s HI) in Hin. destruct o; cbn in *; try discriminate; apply Z.eqb_eq in Hf; subst; assumption. Qed.
-
-Lemma NR_step : forall tk s e, Inv s -> NR tk s -> okstep s e -> noresched tk e = true -> NR tk (step s e).
-Proof.
-  intros tk s e HI [U H Q D] Hok Ha.
-  assert (Hnew : is_issue e = true -> ticket_step TICKET_INITIAL (gen s) = gen s + 1).
-  { intros Hi. specialize (Hok Hi). rewrite ticket_step_spec. destruct (Z.ltb_spec MAXT (gen s + 1)); lia. }
-  pose proof (i_task s HI) as IT. pose proof (i_handle s HI) as IH.
-  constructor.
-  - (* uniqueness *)
-    intros i j. destruct e; cbn [is_issue noresched resched_on] in *; try specialize (Hnew eq_refl); unf; proj; brk; proj;
-      intros Hi Hj Oi Oj; try (apply U; assumption || lia); try lia; try discriminate.
-    all: try (exfalso; match goal with H : context [owner (tasks ?s0 ?k)] |- _ => destruct (IT k ltac:(lia)); lia end).
-    all: try (subst; apply U; solve [assumption | lia]).
-    all: try (exfalso; unfold noresched, resched_on in Ha; subst; rewrite Z.eqb_refl in Ha; discriminate).
-  - (* handle *)
-    intros i. destruct e; cbn [is_issue noresched resched_on] in *; try specialize (Hnew eq_refl); unf; proj; brk; proj;
-      intros Hi Oi Si; try (apply H; assumption || lia); try lia; try discriminate; try reflexivity.
-    all: try (exfalso; match goal with H : context [owner (tasks ?s0 ?k)] |- _ => destruct (IT k ltac:(lia)); lia end).
-    all: try (exfalso; unfold noresched, resched_on in Ha; subst; rewrite Z.eqb_refl in Ha; discriminate).
-    all: try (subst; apply H; solve [assumption | lia]).
-    all: try (subst; reflexivity).
-    all: try (exfalso; pose proof (H i Hi Oi Si) as HH; subst; congruence).
-    all: try (exfalso; apply n; apply U; solve [assumption | lia | congruence]).
-  - (* no fire while pending *)
-    intros i Hi Oi (c & Si) o. rewrite step_log, new_obs_delta. intros Hin. apply in_app_or in Hin.
-    assert (Hb : forall o, In o (log s) -> fires_for tk o = true -> tk <= gen s) by (intros; eapply fires_bounded; eassumption).
-    revert Hi Oi Si Hin.
-    destruct e; cbn [is_issue noresched resched_on] in *; try specialize (Hnew eq_refl); unfold delta; cbn zeta; unf; proj; brk; proj;
-      intros Hi Oi Si Hin; cbn [In] in Hin;
-      repeat match goal with H : _ \/ _ |- _ => destruct H | H : False |- _ => destruct H end; subst o || idtac;
-      try reflexivity; try discriminate; try lia;
-      try (eapply Q; [| | | eassumption]; [eassumption || lia| assumption | eexists; eassumption]).
-    all: try (match goal with H1 : In ?o (log ?s0) |- fires_for ?k ?o = false =>
-                 destruct (fires_for k o) eqn:F; [exfalso; pose proof (Hb o H1 F); lia | reflexivity] end).
-    all: try (eapply (Q i); [lia | eassumption | eexists; eassumption | eassumption]).
-    all: try (eapply (Q n); [lia | eassumption | eexists; eassumption | eassumption]).
-    all: try (exfalso; unfold noresched, resched_on in Ha; subst; rewrite Z.eqb_refl in Ha; discriminate).
-    all: cbn [fires_for]; match goal with |- (?a =? ?b) = false => destruct (Z.eqb_spec a b); [|reflexivity] end;
-         exfalso; apply n; apply U; solve [assumption | lia].
-  - (* deadline *)
-    intros i.
-    destruct e; cbn [is_issue noresched resched_on] in *; try specialize (Hnew eq_refl); unf; proj; brk; proj;
-      intros Hi Oi;
-      try (destruct (D i ltac:(lia) Oi) as (t0 & tau0 & D1 & D2 & D3); exists t0, tau0; split; [first [assumption | right; assumption] | split; assumption]).
-    all: idtac "DLREM". Show.
-Abort.
